@@ -565,3 +565,38 @@ def r05_6(ctx, rr):
         rr.ob(ok, key=key, sample={"fn": b.key, "test": show(F, found["c"])[:120]})
         if not ok:
             rr.violate(key, "%s must extend the backend exactly when the bits needed exceed `self.bits.len() * BITS` (the words actually present, not the capacity); found the test `%s`" % (b.key, show(F, found["c"])[:160]), F.loc(found))
+
+
+@rule("R06.3", props=["C06", "C05", "C14"], floor=4, title="tail masks have the right polarity: keep the low r bits with MAX >> (BITS - r) or (1 << r) - 1, clear them with MAX << r")
+def r06_3(ctx, rr):
+    """r = len*width % BITS. `MAX >> r` / `MAX << (BITS - r)` select the wrong number of bits; no code of
+    the packed vectors has a use for them."""
+    F = ctx.F()
+    bodies = [b for b in F.fns() if not is_derived(b) and b.file.endswith(("bits/bit_vec.rs", "bits/bit_field_vec.rs"))]
+    inl = ctx.memo("inliner", lambda: make_inliner(F))
+    for b in bodies:
+        hits = []
+
+        def is_res(t):
+            return t[0] == "op" and t[1] == "%" and is_bits_def(t[3]) and mentions(t[2], lambda x: x[0] == "field" and x[2] == "len" or (x[0] == "var" and x[1] in ("len", "bit_len")))
+
+        def on_node(W, n, K, hits=hits):
+            if n.get("k") == "Binary" and n["op"] in ("<<", ">>"):
+                t = W.expand(W.T.term(n))
+                if t[0] != "op":
+                    return
+                base, amt = t[2], t[3]
+                is_max = (base[0] == "def" and base[1].endswith("MAX")) or base == ("un", "!", ("int", 0)) or (base[0] == "ite" and ("un", "!", ("int", 0)) in (base[2], base[3]))
+                if not is_max:
+                    return
+                if is_res(amt):
+                    hits.append((n, t[1] == "<<", "MAX %s r" % t[1]))
+                elif amt[0] == "op" and amt[1] == "-" and is_bits_def(amt[2]) and is_res(amt[3]):
+                    hits.append((n, t[1] == ">>", "MAX %s (BITS - r)" % t[1]))
+        Walker(F, b, on_node=on_node, inline=inl).run()
+        for n, ok, form in hits:
+            rr.instances += 1
+            key = "%s:tail-mask-polarity" % short_fn(b.key)
+            rr.ob(ok, key=key + form, sample={"fn": b.key, "mask": show(F, n), "form": form})
+            if not ok:
+                rr.violate(key, "%s builds the tail mask `%s` (%s, r = len*width %% BITS): that keeps BITS - r bits where r are live (or vice versa); the live low bits are kept by `MAX >> (BITS - r)` / `(1 << r) - 1` and cleared by `MAX << r`" % (b.key, show(F, n), form), F.loc(n))
